@@ -23,6 +23,10 @@ quick check and restored /repo. `meta.json` in each directory records what was r
 """
 start = s.index("## 12. Seeded changes: which checks catch which")
 end = s.index("---------------------------------------------------------------------------------------------------\n\n## Appendix A")
-s = s[:start] + "## 12. Seeded changes: which checks catch which\n\n" + intro + table + "\n\nSEEDED_NOTES_PLACEHOLDER\n\n" + s[end:]
+notes = open(os.path.join(HERE, "tools", "seed_notes.md")).read()
+benign = os.path.join(HERE, "tools", "benign_notes.md")
+if os.path.exists(benign):
+    notes += "\n" + open(benign).read()
+s = s[:start] + "## 12. Seeded changes: which checks catch which\n\n" + intro + table + "\n\n" + notes + "\n" + s[end:]
 open(p, "w").write(s)
 print(len(rows), "seeded changes")
